@@ -93,6 +93,8 @@ def run(repo, rep):
     rep.clause("C15-e", "IFM block size arithmetic is axis-consistent")
     rep.clause("C15-g", "the Conv1D one-row block (halved accumulator partition) is taken only for a one-row OFM under a one-row kernel")
     rule_conv1d_halving(repo, rep)
+    rep.clause("C15-n", "the SHRAM layout registers are programmed under the conditions the layout was computed under: IB_END / AB_START / ACC_FORMAT always, IFM2_IB_START exactly when has_ifm2")
+    rule_shram_register_guards(repo, rep)
     rep.clause("C15-h", "the emitted block configuration is the one of the applied schedule (apply_schedule stores it in every pass)")
     rep.clause("C15-i", "IFM block depth per IFM precision (function interpreted): only 16-bit IFMs use the 16-deep block")
     rep.clause("C15-j", "parameter-named positional arguments of the block configuration search sit at their parameter's position")
@@ -838,3 +840,34 @@ def rule_scaled_operands(repo, rep):
                   "sized for 32-bit accumulators while the generator programs 40-bit ones ('block_config does not fit')")
     if n < 3:
         raise AnalysisError("fewer than 3 derivations of 'scaled'")
+
+
+def rule_shram_register_guards(repo, rep):
+    """(n) generate_shram_registers programs the layout try_block_config computed: IB_END, AB_START and ACC_FORMAT unconditionally, IFM2_IB_START
+    whenever the operation has a second input in memory or as a scalar (has_ifm2) - the layout reserved the IFM2 partition under exactly that
+    condition. A further conjunct leaves the register at its reset value / the previous operation's value."""
+    from ..exprnorm import conjuncts as _cj
+
+    m = repo.mod("register_command_stream_generator")
+    fn = m.func("generate_shram_registers")
+    site = "ethosu/vela/register_command_stream_generator.py:generate_shram_registers"
+    seen = {}
+    for c in ast.walk(fn):
+        if isinstance(c, ast.Call) and (call_name(c) or "").endswith("cmd0_with_param") and c.args:
+            reg = str(norm(c.args[0])).split(".")[-1]
+            conds = []
+            cur = c
+            while cur is not fn and cur is not None:
+                pp = m.parents.get(cur)
+                if isinstance(pp, ast.If):
+                    conds += [("" if cur in pp.body else "not ") + str(norm(x)) for x in _cj(pp.test)] if cur in pp.body or cur in pp.orelse else []
+                cur = pp
+            seen[reg] = conds
+    want = {"NPU_SET_IFM_IB_END": [], "NPU_SET_AB_START": [], "NPU_SET_ACC_FORMAT": [], "NPU_SET_IFM2_IB_START": ["has_ifm2(npu_op)"]}
+    for reg, w in want.items():
+        if reg not in seen:
+            rep.bad("C15-n", site, f"{reg} is emitted", "no emission found")
+            continue
+        rep.check(sorted(seen[reg]) == sorted(w), "C15-n", site, f"{reg} is emitted under {w or 'no condition'}",
+                  f"emitted under {seen[reg]}: when the extra condition fails the register keeps its reset value or the previous operation's value while the layout still reserves the partition "
+                  "(a 1x1x1 IFM2 in memory: IFM2_IB_START unordered / overlapping)")
